@@ -308,6 +308,7 @@ class struct_generator(_composite_generator_base):
         sizer_item = next(field for field in cls._descriptor if field.name == sizer_name)
         bound_shift = container_item.type._BOUND_SHIFT
         cls.validate_sizer_type(sizer_item, container_item)
+        cls.limit_to_sizer_range(container_item.type, sizer_item.type._MAX - bound_shift)
 
         if sizer_item.type.__name__ == "container_len":
             sizer_item.type.add_bounded_container(container_item.name)
@@ -317,6 +318,15 @@ class struct_generator(_composite_generator_base):
             sizer_item.type = build_container_length_field(sizer_item.type, container_item.name, bound_shift)
             sizer_item.evaluate_codecs()
             delattr(cls, sizer_item.name)
+
+    @staticmethod
+    def limit_to_sizer_range(container_type, limit):
+        """ A container cannot hold more elements than its sizer field can count. """
+        if issubclass(container_type, base_array):
+            if not container_type._max_len or container_type._max_len > limit:
+                container_type._max_len = limit
+        else:
+            container_type._LIMIT = limit
 
     def validate_and_fix_sizer_name(cls, container_item):
         sizer_name = container_item.type._BOUND
